@@ -114,13 +114,16 @@ def describe_diff(got, exp):
 	return "wrong-rows"
 
 
-def check_join(chk, prop, stratum, how, L, R, lnames, rnames, key_mode="name", expect="many_to_many", single_as_scalar=False, label="", sig=None, digest=True):
+def check_join(chk, prop, stratum, how, L, R, lnames, rnames, key_mode="name", expect="many_to_many", single_as_scalar=False, label="", sig=None, digest=True, strict=False):
 	"""run one join on real tables L, R (keys by stored column name lists) and judge it against the model.
 	returns the Out of the call"""
 	ln, lc = cells(L)
 	rn, rc = cells(R)
 	lkeycols = [lc[ln.index(k)] for k in lnames]
 	rkeycols = [rc[rn.index(k)] for k in rnames]
+	if key_mode == "named-derived":
+		from .common import derive_key
+		lkeycols = [derive_key(c) for c in lkeycols]      # the key VECTOR's values decide, whatever name it carries
 	nl = len(lc[0]) if lc else 0
 	nr = len(rc[0]) if rc else 0
 	lkeys = rows_from(lkeycols, nl)
@@ -128,7 +131,10 @@ def check_join(chk, prop, stratum, how, L, R, lnames, rnames, key_mode="name", e
 	exp, pairs = expected_rows(how, lc, rc, lkeys, rkeys)
 	lon, ron = list(lnames), list(rnames)
 	if key_mode == "vector":
-		lon, ron = [L[k] for k in lon], [R[k] for k in ron]
+		lon, ron = [L.cols()[ln.index(k)] for k in lon], [R.cols()[rn.index(k)] for k in ron]
+	elif key_mode == "named-derived":
+		lon = [Vector(list(c), name=k) for c, k in zip(lkeycols, lnames)]
+		ron = [Vector(list(c), name=k) for c, k in zip(rkeycols, rnames)]
 	elif key_mode == "external":
 		lon = [Vector(list(c)) for c in lkeycols]
 		ron = [Vector(list(c)) for c in rkeycols]
@@ -145,7 +151,8 @@ def check_join(chk, prop, stratum, how, L, R, lnames, rnames, key_mode="name", e
 	if not o.ok:
 		lsch = [L.cols()[ln.index(k)].schema() for k in lnames]
 		rsch = [R.cols()[rn.index(k)].schema() for k in rnames]
-		if refusal_allowed(lkeycols, rkeycols, lsch, rsch):
+		# (strict: both tables are fresh results / fresh constructions, so their declared kinds are the kinds of their values)
+		if refusal_allowed(lkeycols, rkeycols, None if strict else lsch, None if strict else rsch):
 			chk.skip("join-refusal-allowed")
 			return o
 		chk.fail("the join is computed for every admissible input", f"join/raises/{tag}/{type(o.exc).__name__}",
